@@ -34,7 +34,7 @@ def units(tier):
 
 
 class Pt:
-    __slots__ = ("label", "obj", "inst", "exact", "h24", "hash", "hf", "off")
+    __slots__ = ("label", "obj", "inst", "exact", "h24", "hash", "hf", "off", "dec")
 
 
 def pair_exact(x, y):
@@ -69,6 +69,7 @@ def build_pool(ctx, kind, entries):
         x.label, x.obj, x.inst, x.exact = label, p, r[7], exact
         x.h24 = r[2] == 24
         x.hf = desc["t"][0] == "hf"
+        x.dec = desc["t"][0] in ("hf", "hmf")
         x.off = r[5]
         pool.append(x)
         ctx.state(impl.canon_point(p))
@@ -165,7 +166,7 @@ def check_pool(ctx, kind, pool, signs=True, triples=True):
                     if sgn != wsgn and (pair_exact(x, y) or abs(d) > TOL):
                         ctx.violation("sign_of_difference", {"h24": x.h24 or y.h24},
                                       {"kind": "pair", "mode": kind, "a": x.label, "b": y.label},
-                                      {"sign": wsgn, "delta_s": str(d)}, {"sign": sgn, "a_minus_b": str(dd)})
+                                      {"sign": wsgn, "delta_s": str(d)}, {"sign": sgn, "a_minus_b": impl.sstr(dd)})
                 except HorizonExceeded as e:
                     ctx.violation("terminates", {"h24": x.h24 or y.h24},
                                   {"kind": "pair", "mode": kind, "a": x.label, "b": y.label}, "a - b terminates", str(e))
